@@ -650,6 +650,8 @@ def _run_case(case, seed, modes, keys, rec):
         fr = A.fresh_regs()
         if fr is not None:
             rec.details = live_details(fr)
+            if len(modes) > 1:  # (rows that get the full vector set)
+                _enum_items(A, rec, rng)
         rec.layout = live_layout(regs0)
         E(len(regs0._registers) > 0, (cid, "registers"), "the area has no registers")
         _check_spec_complete(A, regs0, rec)
@@ -880,13 +882,18 @@ def _area_specific(A, o1, b1, inp, rec, kind, settings, cfg, rng, keys):
                           "inp": list(map(str, inp))})
     elif kind == "fcb":
         E(b1[:4] == b"FCFB", inp, "FCB does not start with the FCFB tag", b1[:4])
+        _parser_items(A, b1, inp, rec, rng, "fcbparse", lambda x: A.cls.parse(x, family=A.family, mem_type=A.mt, revision=A.rev))
         from spsdk.utils.misc import swap_bytes
         r = pyres(lambda: A.export(A.cls.parse(swap_bytes(b1), family=A.family, mem_type=A.mt, revision=A.rev)))
         E(r == ("ok", b1), inp, "a byte-swapped FCB is not parsed back to the same block", r if r[0] != "ok" else first_diff(b1, r[1]))
     elif kind == "bca":
         E(b1[:4] == b"kcfg", inp, "BCA does not start with the kcfg tag", b1[:4])
+        _parser_items(A, b1, inp, rec, rng, "bcaparse", lambda x: A.cls.parse(x, family=A.family, revision=A.rev))
+    elif kind == "fcf":
+        _parser_items(A, b1, inp, rec, rng, "fcfparse", lambda x: A.cls.parse(x, family=A.family, revision=A.rev))
     elif kind == "memcfg":
         ow = pyres(lambda: list(o1.option_words))
+        rec.model.append({"op": "ow", "vals": raw_values(o1.regs), "res": ("ok:" + _csv(ow[1])) if ow[0] == "ok" else ow[0], "inp": list(map(str, inp))})
         if E(ow[0] == "ok", inp, "option_words fails", ow):
             words = [int.from_bytes(b1[i:i + 4], "little") for i in range(0, len(b1), 4)]
             E(ow[1] == words[:len(ow[1])] and 1 <= len(ow[1]) <= len(words), inp, "option words are not the leading words of the exported registers", ow[1], words)
@@ -939,6 +946,43 @@ def _xmcd_sequence(A, b1, inp, rec, rng):
     c = pyres(lambda: o.crc)
     E(c == ("ok", crc32_mpeg(b2).to_bytes(4, "big")), sinp, "XMCD CRC after a change on the same object is not the CRC of the new export", c)
     E((int.from_bytes(b2[:4], "little") & 0xFFF) == len(b2), sinp, "XMCD size field does not give the size after the change")
+
+
+def _parser_items(A, b1, inp, rec, rng, op, parse):
+    """the area's own parser on the export, a byte-swapped / truncated / tag-damaged / odd-length variant: accept-or-reject class and
+    parsed values for the correspondence with the Lean parser models (fcbParse / bcaParse / fcfParse)"""
+    from spsdk.utils.misc import swap_bytes
+    variants = [("export", b1)]
+    if len(b1) % 2 == 0:
+        variants.append(("swapped", bytes(swap_bytes(b1))))
+    variants.append(("short", b1[:max(0, len(b1) - rng.choice([1, 2, 4, 255, 256]))]))
+    variants.append(("tag-damaged", bytes([b1[0] ^ 0x20]) + b1[1:]))
+    variants.append(("tail", b1 + bytes(rng.getrandbits(8) for _ in range(rng.choice([1, 2, 7])))))
+    if len(b1) > 4:
+        variants.append(("swapped-odd", bytes(swap_bytes(b1[:4])) + b1[4:] + b"\x00"))
+    for name, x in variants:
+        r = pyres(lambda: raw_values(parse(x).registers))
+        rec.model.append({"op": op, "bytes": x.hex(), "res": ("ok:" + _csv(r[1])) if r[0] == "ok" else ("E:other" if r[0] == "E:other" else r[0]),
+                          "inp": list(map(str, inp + (name,)))})
+
+
+def _enum_items(A, rec, rng, n=12):
+    """get_enum_value() of a few bit-fields with enum tables (every enum value and one other value) for the correspondence with the
+    Lean `enumValue` over the generated enum tables"""
+    fr = pyres(A.fresh_regs)
+    if fr[0] != "ok" or fr[1] is None:
+        return
+    cands = [(ri, fi, b) for ri, r in enumerate(fr[1]) for fi, b in enumerate(r._bitfields) if b.get_enums() and not r.sub_regs]
+    for ri, fi, b in rng.sample(cands, k=min(n, len(cands))):
+        shift = b.config_width - b.width
+        vals = sorted({e.get_value_int() for e in b.get_enums() if e.get_value_int() >> shift < 1 << b.width and not e.get_value_int() & ((1 << shift) - 1)})
+        vals = vals[:6] + [rng.getrandbits(b.width) << shift]
+        for v in vals:
+            r1 = pyres(b.set_value, v, True)
+            r2 = pyres(b.get_enum_value)
+            if r1[0] == "ok" and r2[0] == "ok":
+                rec.model.append({"op": "enumval", "ri": ri, "fi": fi, "v": v, "res": r2[1], "names": [e.name for e in b.get_enums()],
+                                  "inp": [rec.cid, "enum", fr[1][ri].name, b.name, str(v)]})
 
 
 def _le32(b, off):
@@ -1128,7 +1172,7 @@ def enumerate_cli_flows():
         flows += [("pfr", area, f) for f in get_families("pfr", area)]
     for sector in ("ROMCFG", "CMACTable"):
         flows += [("ifr", sector, f) for f in get_families("ifr", sector.lower())]
-    for tool in ("bca", "fcf", "fcb", "xmcd", "tz"):
+    for tool in ("bca", "fcf", "fcb", "xmcd", "tz", "memcfg", "fuses"):
         flows += [(tool, "", f) for f in get_families(tool)]
     return flows
 
@@ -1228,6 +1272,44 @@ def _run_cli(flow, rec):
                 continue
             if call(main, ["bootable-image", tool, "export", "-c", P(f"p{i}.yaml"), "-o", P(f"b{i}.bin")], "export(parsed)"):
                 same(rd(P(f"a{i}.bin")), rd(P(f"b{i}.bin")))
+    elif tool == "memcfg":
+        import re
+
+        from spsdk.apps.nxpmemcfg import main
+        if not call(main, ["get-templates", "-f", fam, "-o", P("tpl")], "get-templates"):
+            return
+        files = sorted(os.listdir(P("tpl")))
+        E(len(files) > 0, (cid, "get-templates"), "no template written")
+
+        def words_of(argv, what):
+            r = runner.invoke(main, argv, catch_exceptions=True)
+            rec.note((cid, what), f"cli:{tool}:{what}")
+            m = re.search(r"Exported config options: (.*)", r.output or "")
+            if not E(r.exit_code == 0 and m is not None, (cid, what, " ".join(argv[:4])), f"CLI step fails: {what}",
+                     (r.exit_code, (r.output or "")[-300:], repr(r.exception)[:200])):
+                return None
+            return [int(x, 16) for x in m.group(1).replace(",", " ").split()]
+
+        for i, fn in enumerate(files):
+            per = fn[len("ow_"):-len(".yaml")]
+            w1 = words_of(["export", "-c", os.path.join(P("tpl"), fn)], "export")
+            if not w1:
+                continue
+            argv = ["parse", "-f", fam, "-p", per]
+            for w in w1:
+                argv += ["-w", hex(w)]
+            if not call(main, argv + ["-o", P(f"p{i}.yaml")], "parse"):
+                continue
+            w2 = words_of(["export", "-c", P(f"p{i}.yaml")], "export(parsed)")
+            if w2 is not None:
+                E(w1 == w2, (cid, "roundtrip", per), "the option words exported from the parsed configuration differ from the first ones", w2, w1)
+    elif tool == "fuses":
+        from spsdk.apps.nxpfuses import main
+        if not call(main, ["get-template", "-f", fam, "-o", P("t.yaml")], "get-template"):
+            return
+        if call(main, ["fuses-script", "-c", P("t.yaml"), "-o", P("s.txt")], "fuses-script"):
+            txt = rd(P("s.txt")).decode("utf-8", "replace")
+            E(len(txt.strip()) > 0, (cid, "fuses-script"), "empty fuse script")
     elif tool == "tz":
         from spsdk.apps.nxpimage import main
         from spsdk.image.trustzone import TrustZone
@@ -1332,8 +1414,8 @@ def run(ck):
             s.expect(False, inp, what, obs, exp, finding=finding)
     ck.extra["slowest_cases"] = [(r.cid, round(r.t, 2)) for r in sorted(recs, key=lambda r: -r.t)[:5]]
     sc = ck.stream("cli_flow", f"{len(flows)} tool/family flows through the real click entry points (pfr, ifr, nxpimage bca|fcf|tz, nxpimage bootable-image "
-                   "fcb|xmcd; latest revision): get-template -> generate/export -> parse -> generate/export again, binaries equal and of the documented "
-                   "size" + ("; quick = three random families per tool" if ck.quick else "; every supported family") + "; non-trivial = distinct (flow, step)")
+                   "fcb|xmcd, nxpmemcfg, nxpfuses; latest revision): get-template -> generate/export -> parse -> generate/export again, binaries "
+                   "(option words) equal and of the documented size; nxpfuses: get-template -> fuses-script" + ("; quick = three random families per tool" if ck.quick else "; every supported family") + "; non-trivial = distinct (flow, step)")
     cinfra = [r for r in crecs if r.infra]
     if cinfra:
         raise Infra(f"harness worker crashed on {cinfra[0].cid}:\n{cinfra[0].infra}")
@@ -1441,6 +1523,9 @@ def _correspondence(ck, drv, cases, recs):
     lines.append("wfall")
     expect.append(None)
     inputs.append(("wfall",))
+    lines.append("dcheck")
+    expect.append(None)
+    inputs.append(("dcheck",))
     # ---- model vs real code
     for r in recs:
         cid = r.cid
@@ -1469,6 +1554,38 @@ def _correspondence(ck, drv, cases, recs):
             if it["op"] == "export":
                 lines.append(f"export {_csv(it['vals'])}")
                 expect.append("ok:" + it["bytes"])
+            elif it["op"] in ("fcbparse", "bcaparse", "fcfparse"):
+                if idx is None or cur != ("sel", idx):
+                    lines.append(f"sel {idx}")
+                    expect.append(f"ok {layouts[idx]['nregs']}")
+                    inputs.append((cid, "select"))
+                    cur = ("sel", idx)
+                lines.append(f"{it['op']} {it['bytes'] or '-'}")
+                expect.append(it["res"])
+            elif it["op"] == "ow":
+                if cur != ("sel", idx):
+                    lines.append(f"sel {idx}")
+                    expect.append(f"ok {layouts[idx]['nregs']}")
+                    inputs.append((cid, "select"))
+                    cur = ("sel", idx)
+                lines.append(f"ow {_csv(it['vals'])}")
+                expect.append(it["res"])
+            elif it["op"] == "enumval":
+                if cur != ("sel", idx):
+                    lines.append(f"sel {idx}")
+                    expect.append(f"ok {layouts[idx]['nregs']}")
+                    inputs.append((cid, "select"))
+                    cur = ("sel", idx)
+                names = dmeta[idx]["names"]
+                res = it["res"]
+                want = f"n{names.index(res)}" if res in it["names"] and res in names else None
+                if want is None:
+                    try:
+                        want = f"v{int(res, 16)}"
+                    except (TypeError, ValueError):
+                        want = f"?{res}"
+                lines.append(f"enumval {it['ri']} {it['fi']} {it['v']}")
+                expect.append(want)
             elif it["op"] == "rule":
                 lines.append(f"compute 0:{it['rule']} 0 {it['v']}")
                 expect.append(str(it["out"]))
@@ -1496,6 +1613,15 @@ def _correspondence(ck, drv, cases, recs):
             bad = [layouts[int(i)]["file"] for i in got.split(",")] if got not in ("-", "") else []
             ck.extra["layout_checker"] = {"ill_formed_layouts": bad, "how": "layoutWFb executed natively by drv_c12 over the whole generated table; "
                                           "the same statement is kernel-checked (decide +kernel) by gen_layouts_wf_partial in Properties/C12.lean"}
+            continue
+        if inp == ("dcheck",):
+            bad = {}
+            for ent in ([] if got in ("-", "") else got.split(",")):
+                i, cl = ent.split(":")
+                bad[layouts[int(i)]["file"]] = cl.split("+")
+            ck.extra["details_checker"] = {"failing": bad, "how": "the clauses of gen_details_ok / gen_fcb_table / gen_bca_fcf_table / gen_memcfg_table evaluated "
+                                           "natively per layout (names the database file and the fact when one of these theorems stops checking; the "
+                                           "files listed here on a green run are the named exceptions knownDuplicateRegNames / knownDuplicateFieldNames)"}
             continue
         sm.note(inp, cls=inp[1] if len(inp) > 1 and isinstance(inp[1], str) else str(inp[0]))
         sm.compare(inp, want, got, "Lean model differs from the implementation" if inp[0] not in ("sel", "dump", "tzwords", "count")
